@@ -88,6 +88,17 @@ CLAIMED = {
    note='As C02; (Mach^2-1)**0.5 enters the coefficient model as a parameter; conical panels rejected by the code; flow along y has no '
         'curvature term in any kernel (stated).',
    technique='Lean 4 proof over regenerated model + hand model with driver correspondence + oracle', ref='4/C19'),
+ 'C07': dict(
+   text='Hand models of Panel.calc_fext / PanelAssembly.calc_fext (placement at col0 in any size, constant forces unscaled, '
+        'incrementable x inc) and of sparse.solve (null-column removal, solver as parameter, scatter); theorems for ALL force lists, '
+        'load factors, placements and amplitude vectors: fext.c = sum of force x displacement of the series at the force position '
+        '(panels and assemblies), solve_sound (reduced solution scattered satisfies every active row, zero elsewhere), linearity; the '
+        'shape rows are those of the REGENERATED kernel cfg, proved to be the amplitude-derivative of the series cfuvw evaluates. Ties: '
+        'driver correspondence (rows recorded from fg, spsolve answer recorded), virtual-work predicate against the package\'s own uvw for '
+        'panels, assemblies and bays, residual and linearity of the static solution. Two defects repaired (w-only model, bay skin forces).',
+   note='Trusted: Lean kernel, Mathlib, hand model (tied on explored cases), SuperLU as recorded parameter, translator for cfg, '
+        'rounding not modelled. StiffPanelBay.calc_fext checked by the predicate only.',
+   technique='Lean 4 proof over hand model + regenerated kernel model, driver correspondence, virtual-work oracle', ref='4/C07'),
  'C09': dict(
    text='Lean 4 theorems about a hand-written executable state-machine model of _solver_NR (all residual and '
         'line-search histories, all admissible configurations): every reported pair is immediately preceded by a '
